@@ -156,14 +156,6 @@
     expr_children!(expr_getitem, ast::Expr::GetItem(sp(ast::GetItem { expr: var("a"), subscript_expr: var("b") })), ["a", "b"]);
     expr_children!(expr_slice, ast::Expr::Slice(sp(ast::Slice { expr: var("a"), start: Some(var("b")), stop: Some(var("c")), step: Some(var("d")) })), ["a", "b", "c", "d"]);
     expr_children!(expr_call, ast::Expr::Call(sp(ast::Call { expr: var("a"), args: vec![ast::CallArg::Pos(var("b"))] })), ["a", "b"]);
-//# ob name=expr_callarg_kinds role=disabled fn=compiler::meta::tracker_visit_callarg kind=bounded plumbing=true fallback=undeclared_native bound="the four CallArg kinds" stmt="every kind of call argument (positional, keyword, *splat, **splat) visits its expression"
-    visitor_harness!(expr_callarg_kinds, {
-        let mut state = fresh();
-        let a = ast::CallArg::Pos(var("a")); let b = ast::CallArg::Kwarg("k", var("b")); let c = ast::CallArg::PosSplat(var("c")); let d = ast::CallArg::KwargSplat(var("d"));
-        tracker_visit_callarg(&a, &mut state); tracker_visit_callarg(&b, &mut state); tracker_visit_callarg(&c, &mut state); tracker_visit_callarg(&d, &mut state);
-        assert!(model_out_contains("a") && model_out_contains("b") && model_out_contains("c") && model_out_contains("d"));
-        std::mem::forget(state); std::mem::forget(a); std::mem::forget(b); std::mem::forget(c); std::mem::forget(d);
-    });
     visitor_harness!(expr_list_tuple_map, {
         let l = ast::Expr::List(sp(ast::List { items: vec![var("a"), var("b")] }));
         let t = ast::Expr::Tuple(sp(ast::Tuple { items: vec![var("c"), var("d")] }));
@@ -256,7 +248,8 @@
             "{{ a.x.y }}", "{{ a[b] }}", "{{ a[b:c:d] }}", "{{ a[1:] }}", "{{ a[:b] }}", "{{ a(b, k=c, *d, **e) }}", "{{ [a, b] }}", "{{ (a, b) }}", "{{ {a: b} }}", "{{ a ~ b }}",
             "{{ a and b }}", "{{ a or b }}", "{{ a in b }}", "{{ -a }}", "{{ a.f(b) }}", "{{ range(a)|list }}",
             "{% set x = x %}{{ x }}", "{% set x = x|default(1) + 1 %}", "{% set x = 1 %}{{ x }}{{ y }}", "{% set (p, q) = pair %}{{ p }}{{ q }}",
-            "{% with y = y %}{{ y }}{% endwith %}", "{% with y = 1, z = y %}{{ z }}{% endwith %}{{ y }}", "{% with z = w %}{{ z }}{% endwith %}{{ z }}",
+            "{% with y = y %}{{ y }}{% endwith %}", "{% with y = 1, z = y %}{{ z }}{% endwith %}{{ y }}", "{% with a1 = 1, b1 = a1 + 1 %}{{ b1 }}{% endwith %}", "{% with (p1, q1) = pair, z1 = [p1, q1]|join('-') %}{{ z1 }}{% endwith %}",
+            "{{ dict(**extra) }}", "{{ items|sort(**opts) }}", "{% do dict(**more) %}", "{% macro mk() %}m{% endmacro %}{% call mk(**two) %}x{% endcall %}", "{{ f1(*args1) }}", "{{ a is divisibleby(*targs) }}", "{% with z = w %}{{ z }}{% endwith %}{{ z }}",
             "{% set x %}{{ x }}{% endset %}{{ x }}", "{% set x | replace(a, b) %}c{% endset %}", "{% set x %}{{ inner }}{% endset %}",
             "{% for t in t %}{{ t }}{% endfor %}", "{% for t in items %}{{ t }}{{ b }}{% else %}{{ e }}{% endfor %}{{ t }}", "{% for t in items if f %}{% endfor %}",
             "{% for k, v in items %}{{ k }}{{ v }}{% endfor %}{{ k }}", "{% for t in items recursive %}{{ loop(t.children) }}{% endfor %}", "{% for t in items %}{{ loop.index }}{% endfor %}{{ loop }}",
@@ -291,4 +284,12 @@
         let env = crate::Environment::new();
         let t = env.template_from_str("{{ self }}").unwrap();
         assert!(t.undeclared_variables(false).contains("self"), "`self` is looked up in the context by the render but is not reported");
+    }
+
+    // listed known finding: `caller` is assumed to exist inside every macro
+//# ob name=undeclared_caller_native role=native_bounded fn=compiler::meta::tracker_visit_macro kind=bounded bound="1 template: a macro that uses caller() invoked without a call block" stmt="a render that looks up the key `caller` in the context finds it in undeclared_variables()"
+    fn undeclared_caller_native() {
+        let env = crate::Environment::new();
+        let t = env.template_from_str("{% macro m() %}{{ caller is defined }}{% endmacro %}{{ m() }}").unwrap();
+        assert!(t.undeclared_variables(false).contains("caller"), "`caller` is looked up in the context when the macro is not invoked through a call block, but it is not reported");
     }
